@@ -401,6 +401,8 @@ pub struct RunResult<T> {
     pub net: NetStats,
     pub net_trace: u64,
     pub timed_out: bool,
+    /// the scenario's own task panicked (a call into the code under test did)
+    pub scenario_panicked: bool,
 }
 
 /// Runs `scenario` inside a fresh current-thread runtime with a paused clock. `limit` is the
@@ -424,26 +426,30 @@ where
         T0.with(|t| *t.borrow_mut() = Some(now_std()));
         let world = World::new(net_cfg)?;
         let w2 = world.clone();
-        let fut = scenario(world);
+        // a panic of code under test on the scenario's own task (e.g. inside `open()`) must not
+        // take the run down: it is caught here; the panic hook has recorded where it happened
+        let fut = futures::FutureExt::catch_unwind(std::panic::AssertUnwindSafe(scenario(world)));
         let (value, timed_out) = match tokio::time::timeout(limit, fut).await {
-            Ok(v) => (Some(v), false),
+            Ok(Ok(v)) => (Some(v), false),
+            Ok(Err(_)) => (None, false),
             Err(_) => (None, true),
         };
         let virtual_ms = virtual_ms();
         let net = w2.net.stats();
         let net_trace = w2.net.trace_hash();
         w2.stop_server();
-        Ok::<_, anyhow::Error>((value, timed_out, virtual_ms, net, net_trace))
+        let scenario_panicked = value.is_none() && !timed_out;
+        Ok::<_, anyhow::Error>((value, timed_out, virtual_ms, net, net_trace, scenario_panicked))
     });
     selium::verif::set_endpoint_factory(None);
     drop(local);
     drop(rt);
-    let (value, timed_out, virtual_ms, net, net_trace) = out?;
+    let (value, timed_out, virtual_ms, net, net_trace, scenario_panicked) = out?;
     let events = take_events();
     let panics = crate::panics::take_all();
     // per-run certificate scratch
     let _ = std::fs::remove_dir_all(scratch_root());
-    Ok(RunResult { value, events, panics, virtual_ms, net, net_trace, timed_out })
+    Ok(RunResult { value, events, panics, virtual_ms, net, net_trace, timed_out, scenario_panicked })
 }
 
 /// Folds the generic parts of a run into an outcome (faults fired, virtual time, panics in /repo code).
@@ -458,6 +464,10 @@ pub fn fold<T>(out: &mut Outcome, prop: &str, r: &RunResult<T>) {
         let in_repo = ["server/", "client/", "protocol/", "standard/", "tools/"].iter().any(|p| loc.starts_with(p));
         if in_repo {
             out.violate(prop, "panic-in-selium", &format!("panic@{loc}"), format!("a task running selium code panicked at {loc}: {msg}"));
+        } else if r.scenario_panicked && !loc.starts_with("src/") && !loc.starts_with("verif:") {
+            // the scenario task only calls the library's public API: a panic below it, wherever
+            // the panicking line lives, was reached through selium
+            out.violate(prop, "panic-under-selium-call", &format!("panic@{loc}"), format!("a call into the selium client library panicked at {loc}: {msg}"));
         } else {
             out.probe("panic_outside_selium");
             if out.log.len() < 20 {
